@@ -18,7 +18,9 @@ pub struct C16Case {
     /// 0 normal context, 1 inside the signal's own action, 2 signal blocked, 3 explicitly unblocked,
     /// 4 called on a second thread while the main thread idles with the signal unblocked,
     /// 5 inside the signal's own action running on a second thread (thread-directed delivery)
-    /// while the main thread idles with the signal unblocked
+    /// while the main thread idles with the signal unblocked,
+    /// 6 from normal context while another thread keeps registering and unregistering an action
+    /// for the same signal (which had been taken over and emptied before)
     pub ctx: u8,
     pub block_others: Vec<i32>,
     pub pre_ignore: bool,
@@ -324,6 +326,51 @@ fn emulated(case: &C16Case) -> (Vec<Value>, Obs) {
                     }
                 }
             }
+            6 => {
+                // the registry is busy with the very same signal on another thread: the signal had
+                // been taken over and all its actions removed again; now one thread keeps
+                // registering and unregistering an action for it while this one emulates the default
+                let forbidden = [libc::SIGILL, libc::SIGFPE, libc::SIGSEGV, libc::SIGKILL, libc::SIGSTOP].contains(&n);
+                // (numbers the library has no name for are only asked to fail: nothing is taken over)
+                if forbidden || !(1..=64).contains(&n) || n == 32 || n == 33 || signal_hook::low_level::signal_name(n).is_none() {
+                    let r = signal_hook::low_level::emulate_default_handler(n);
+                    match r {
+                        Ok(()) => emit(fd, &json!({"k": "ok", "unchanged": dispositions() == d0})),
+                        Err(e) => emit(fd, &json!({"k": "err", "errno": e.raw_os_error(), "unchanged": dispositions() == d0})),
+                    }
+                    emit(fd, &json!({"k": "alive"}));
+                    return;
+                }
+                match unsafe { signal_hook_registry::register(n, || {}) } {
+                    Ok(id) => {
+                        signal_hook_registry::unregister(id);
+                    }
+                    Err(_) => {
+                        emit(fd, &json!({"k": "alive"}));
+                        return;
+                    }
+                }
+                let stop = Arc::new(AtomicBool::new(false));
+                let s2 = stop.clone();
+                let churn = std::thread::spawn(move || {
+                    let mut k = 0u32;
+                    while !s2.load(std::sync::atomic::Ordering::SeqCst) && k < 200_000 {
+                        if let Ok(id) = unsafe { signal_hook_registry::register(n, || {}) } {
+                            signal_hook_registry::unregister(id);
+                        }
+                        k += 1;
+                    }
+                });
+                std::thread::sleep(std::time::Duration::from_micros(300));
+                let r = signal_hook::low_level::emulate_default_handler(n);
+                stop.store(true, std::sync::atomic::Ordering::SeqCst);
+                let _ = churn.join();
+                match r {
+                    Ok(()) => emit(fd, &json!({"k": "ok"})),
+                    Err(e) => emit(fd, &json!({"k": "err", "errno": e.raw_os_error()})),
+                }
+                emit(fd, &json!({"k": "alive"}));
+            }
             c => {
                 if c == 2 {
                     mask(libc::SIG_BLOCK, &[n]);
@@ -344,7 +391,7 @@ fn emulated(case: &C16Case) -> (Vec<Value>, Obs) {
 pub fn run_case(case: &C16Case) -> CaseReport {
     let mut rep = CaseReport::default();
     let n = case.n;
-    let ctxname = ["normal", "in-handler", "blocked", "unblocked", "second-thread", "in-handler-on-second-thread"][case.ctx as usize % 6];
+    let ctxname = ["normal", "in-handler", "blocked", "unblocked", "second-thread", "in-handler-on-second-thread", "registry-busy-with-the-signal"][case.ctx as usize % 7];
     rep.hash = hash_of(&(n, case.ctx, &case.block_others, case.pre_ignore, case.pend_others));
     if case.pend_others && !case.block_others.is_empty() {
         rep.class("other-signals-blocked-and-pending");
@@ -425,7 +472,7 @@ pub fn run_case(case: &C16Case) -> CaseReport {
 pub fn strategy() -> BoxedStrategy<C16Case> {
     (
         prop_oneof![6 => 1i32..65, 1 => proptest::sample::select(vec![0, -1, 65, 128, i32::MAX, i32::MIN])],
-        0u8..6,
+        0u8..7,
         vec(prop_oneof![2 => 1i32..65, 3 => proptest::sample::select(vec![libc::SIGTERM, libc::SIGINT, libc::SIGUSR1, libc::SIGHUP, libc::SIGQUIT, libc::SIGALRM])], 0..4),
         any::<bool>(),
         any::<bool>(),
@@ -444,7 +491,7 @@ fn extra(def: &PropDef, _args: &WorkerArgs, report: &mut WorkerReport) {
     let mut nums: Vec<i32> = (1..=64).collect();
     nums.extend([0, -1, 65, 128, i32::MAX]);
     for n in nums {
-        for ctx in 0..6u8 {
+        for ctx in 0..7u8 {
             let case = C16Case { n, ctx, block_others: vec![], pre_ignore: false, pend_others: false };
             let rep = run_case(&case);
             if let Some(v) = report.absorb(def, &rep, &known) {
@@ -475,7 +522,7 @@ fn replay(v: &Value) -> CaseReport {
 pub static C16: PropDef = PropDef {
     id: "C16",
     prefixes: &["C16/"],
-    rule: "forkprobe differential: signal number (1..64 and out-of-range) x context {normal, inside the signal's own action, blocked, unblocked, on a second thread with the main thread idle and the signal unblocked there, inside the action on a second thread (thread-directed delivery)} enumerated completely by worker 0, plus proptest-generated extras (other signals blocked, signal ignored beforehand); each probe is a forked child alone in a fresh non-orphaned process group observed with waitpid(WUNTRACED). Oracle: outcome class {terminated by signal n, stopped, continues} of emulate_default_handler equals the kernel's own default action measured by a native probe (SIG_DFL + raise) in the same run; unknown numbers return an error and change no disposition; signal_name equals a name the C headers give that number. Non-trivial = named signal or non-normal context; distinct = (number, context, extras)",
+    rule: "forkprobe differential: signal number (1..64 and out-of-range) x context {normal, inside the signal's own action, blocked, unblocked, on a second thread with the main thread idle and the signal unblocked there, inside the action on a second thread (thread-directed delivery), while another thread keeps registering/unregistering an action for the same (taken-over, emptied) signal} enumerated completely by worker 0, plus proptest-generated extras (other signals blocked, signal ignored beforehand); each probe is a forked child alone in a fresh non-orphaned process group observed with waitpid(WUNTRACED). Oracle: outcome class {terminated by signal n, stopped, continues} of emulate_default_handler equals the kernel's own default action measured by a native probe (SIG_DFL + raise) in the same run; unknown numbers return an error and change no disposition; signal_name equals a name the C headers give that number. Non-trivial = named signal or non-normal context; distinct = (number, context, extras)",
     assumptions: &[
         "the kernel of this sandbox is the reference (Linux); probes run in a non-orphaned process group so terminal stop signals stop",
         "platform names come from `cc -dM -E <signal.h>` at check time (fallback: the libc crate's constants)",
